@@ -945,4 +945,23 @@ theorem portSetRemovePort_eq (p : PortSet) (r : PortRef) :
 theorem portSetAddPortRange_eq (p : PortSet) (lo hi : Int) :
     Gen.Procs.portSetAddPortRange p lo hi = .ok (p.addPortRange lo hi) := rfl
 
+/-- `ConnectionSet.Contains(port, protocol string)`: the port must be a number; the full set holds it; otherwise the entry of the
+protocol the string names (case-insensitively) decides -/
+theorem connSetContains_eq (c : ConnSet) (port protocol : String) :
+    Gen.Procs.connSetContains c port protocol = .ok (c.containsStr port protocol) := by
+  obtain ⟨ca, ct, cu, cs⟩ := c
+  unfold Gen.Procs.connSetContains ConnSet.containsStr
+  cases hp : port.toInt? with
+  | none => simp [pure_ok]
+  | some n =>
+    cases ca
+    · cases hpr : Proto.ofStrFold? protocol with
+      | none =>
+        cases ct <;> cases cu <;> cases cs <;>
+          simp [hpr, Gen.Procs.connSetContains_loop1, Proto.all, ConnSet.get, ok_bind, pure_ok, bind_ok_id]
+      | some pr =>
+        cases pr <;> cases ct <;> cases cu <;> cases cs <;>
+          simp [hp, hpr, Gen.Procs.connSetContains_loop1, Proto.all, ConnSet.get, ok_bind, pure_ok, bind_ok_id]
+    · simp [pure_ok]
+
 end Netpol.Tie.Procs
